@@ -218,6 +218,8 @@ class Model:
         """At any time, sum of active demands <= capacity."""
         if len(starts) != len(durations) or len(durations) != len(demands):
             raise ValueError("starts, durations, demands must have same length")
+        if any(d < 0 for d in demands):
+            raise ValueError("demands must be non-negative")
         return ("cumulative", tuple(starts), tuple(durations), tuple(demands), capacity)
 
     def add(self, constraint):
